@@ -1,14 +1,25 @@
 (* Correspondence of the byte-level lexer (Model/Lexer.v) with quick_xml's reader: cases written
-   by the harness (harness/src/lex.rs) hold a byte string and the events the real reader, in its
-   default configuration, delivered for it (error payloads reduced to their kind, UTF-8 errors to
-   id 0).  Evaluated with vm_compute; nothing here is used by a theorem. *)
-From XSG.Model Require Import Strings Necessity Element Parser Lexer.
+   by the harness (harness/src/lex.rs) hold a byte string and the events the real reader delivered
+   for it (error payloads reduced to their kind, UTF-8 errors to id 0): in its default configuration
+   from the slice, with expand_empty_elements, and through a BufReader of a small capacity.
+   Evaluated with vm_compute; nothing here is used by a theorem. *)
+From XSG.Model Require Import Strings Necessity Element Parser Dom Lexer.
 From XSG.Corr Require Import Common CoreCorr.
-From XSG.Proofs Require Import ParserFaults.
+From XSG.Proofs Require Import ParserFaults SkelProofs LexerExpand.
 
-Definition lexcase := (list N * list event)%type.
-Definition ev_lex (c : lexcase) : bool := list_eqb event_eqb (lex (fst c)) (snd c).
+Definition lexcase := (list N * list event * list event * list event)%type.
+Definition lc_bytes (c : lexcase) := fst (fst (fst c)).
+Definition lc_events (c : lexcase) := snd (fst (fst c)).
+Definition lc_expanded (c : lexcase) := snd (fst c).
+Definition lc_buffered (c : lexcase) := snd c.
+Definition ev_lex (c : lexcase) : bool := list_eqb event_eqb (lex (lc_bytes c)) (lc_events c).
+(* the reader with expand_empty_elements delivers `expand` (Proofs/SkelProofs.v, the function
+   C11_expand_empty is about) of what the default reader delivers *)
+Definition ev_lex_expand (c : lexcase) : bool :=
+  list_eqb event_eqb (lex_expanded (lc_bytes c)) (lc_expanded c).
+(* a BufReader of any capacity delivers what the slice delivers *)
+Definition ev_lex_buf (c : lexcase) : bool := list_eqb event_eqb (lex (lc_bytes c)) (lc_buffered c).
 (* what Properties/Lexer.v proves of `lex`, checked on the REAL reader's stream: it never
    delivers an end tag that closes nothing (the hypothesis of C08_parse_err_iff) *)
-Definition or_stream (c : lexcase) : bool := no_stray_end_strict 0 (snd c).
-Definition show_lex (c : lexcase) := (lex (fst c), snd c).
+Definition or_stream (c : lexcase) : bool := no_stray_end_strict 0 (lc_events c).
+Definition show_lex (c : lexcase) := (lex (lc_bytes c), lc_events c, lc_expanded c, lc_buffered c).
